@@ -13,6 +13,7 @@ import c16_gen as G
 from common import coq_lit, Nat, CoqRaw
 
 WHICH = ['LM', 'SM', 'LR', 'SR', 'LI', 'SI']
+EPS = float(np.finfo(float).eps)
 ALIASES = {'LM': ['LM', 'm>'], 'SM': ['SM', 'm<'], 'LR': ['LR', '>', 'LA'], 'SR': ['SR', '<', 'SA'], 'LI': ['LI'], 'SI': ['SI']}
 
 
@@ -485,7 +486,7 @@ def oracle_gmres_restart(ctx, case, r):
     if np.all(np.isfinite(flat)) and len(te) >= len(iters) and all(len(t) >= k + 1 for t, k in zip(te, iters)):
         # input of Model/KrylovGmres.v: which estimates were below the tolerance; the model predicts events and total_iters
         info['coq'] = (Nat(N_min), Nat(N_max), Nat(restart), bool(te[0][0] < res),
-                       [[bool(te[c][j + 1] < res) for j in range(k)] for c, k in enumerate(iters)],
+                       [[(bool(te[c][j + 1] < res), bool(te[c][j + 1] <= EPS * te[c][0])) for j in range(k)] for c, k in enumerate(iters)],
                        [tuple(Nat(v) for v in e) for e in tr['events']], [Nat(k) for k in iters])
     if not (np.all(np.isfinite(flat)) and np.all(np.isfinite(x)) and np.isfinite(pl['res'])):
         bad = [i for i, e in enumerate(flat) if not np.isfinite(e)]
@@ -532,14 +533,18 @@ def oracle_gmres_restart(ctx, case, r):
         probs.append('shape of total_error %s does not fit total_iters %s' % ([len(t) for t in te], iters))
         return probs, [], info
     for c, k in enumerate(iters):
-        hit = [j for j in range(1, k + 1) if te[c][j] < res and j - 1 >= N_min]
+        # stop rule: the first iteration j (Arnoldi step j-1) whose estimate is below res and that is either a step >= N_min or has
+        # exhausted the Krylov space (estimate at the rounding level eps * residual at the start of the cycle: nothing is left to iterate on)
+        hit = [j for j in range(1, k + 1) if te[c][j] < res and (j - 1 >= N_min or te[c][j] <= EPS * te[c][0])]
         last = c == len(iters) - 1
         if not 1 <= k <= N_max:
             probs.append('cycle %d: %d iterations with N_max=%d' % (c, k, N_max))
         elif hit and (hit[0] != k or not last or not converged):
-            probs.append('cycle %d: estimate %.3e < res at iteration %d >= N_min+1 but GMRES went on' % (c, te[c][hit[0]], hit[0]))
+            probs.append('cycle %d: estimate %.3e < res at iteration %d (N_min+1 = %d, rounding level %.3e) but GMRES went on'
+                         % (c, te[c][hit[0]], hit[0], N_min + 1, EPS * te[c][0]))
         elif not hit and (k != N_max or (last and converged)):
-            probs.append('cycle %d stopped after %d < N_max iterations without an estimate below res=%g' % (c, k, res))
+            probs.append('cycle %d stopped after %d iterations (N_max=%d, N_min+1=%d) although no estimate below res=%g came from an iteration '
+                         '>= N_min+1 or reached the rounding level %.3e: estimates %s' % (c, k, N_max, N_min + 1, res, EPS * te[c][0], te[c][1:][-3:]))
     if not converged and len(iters) != restart:
         probs.append('not converged after %d cycles but restart=%d' % (len(iters), restart))
     ev = ['mv']
